@@ -213,6 +213,11 @@ func runC07(c *ctx) {
 			"ing+d/i1@1!haproxy,-!affinity=cookie;session-cookie-name=srv;session-cookie-preserve=true;session-cookie-value-strategy="+strat+"!a.local>/:Prefix:app:80!-!- sync "+
 			"ep~d/app!10.0.1.2:r:app-2 sync ep~d/app!10.0.1.2:r:app-2+10.0.1.3:r:app-3 sync"))
 	}
+	// an ssl-passthrough host re-parsed unchanged (endpoints event), then an unrelated host: the http map still
+	// names _redirect_https, the section must still be there
+	c07hist(c, strings.Fields("svc+d/app!http:80:8080!- ep~d/app!10.0.1.1:r:app-1 svc+d/api!http:80:8080!- ep~d/api!10.0.2.1:r:api-1 "+
+		"ing+d/i1@1!haproxy,-!ssl-passthrough=true!a.local>/:Prefix:app:80!-!- sync ep~d/app!10.0.1.1:r:app-1+10.0.1.2:r:app-2 sync "+
+		"ing+d/i2@2!haproxy,-!-!b.local>/:Prefix:api:80!-!- sync"))
 	for i := 0; i < n; i++ {
 		g := world.NewGen(r.Fork(), cfg)
 		ops := g.History()
